@@ -21,6 +21,8 @@ theorem ustruct_shape (fs : List Ty) (last : Ty) (vals : List Bytes) (li : Init)
       (addr + ceilMul (foldSize (dictL fs) 0) last.dict.align) % last.dict.align = 0 ∧
       emplaceU last li ⟨addr + ceilMul (foldSize (dictL fs) 0) last.dict.align, b1.drop (ceilMul (foldSize (dictL fs) 0) last.dict.align)⟩ = .ok o ∧
       o.bytes.length = floorMul bytes.length (alignL (dictL fs ++ [last.dict])) - ceilMul (foldSize (dictL fs) 0) last.dict.align ∧
+      (∀ (i : Nat) (d : Dict) (v : Bytes) (P : Nat), (dictL fs)[i]? = some d → vals[i]? = some v → (posList (dictL fs) 0)[i]? = some P →
+        (b1.drop P).take d.ssize = v) ∧
       emplaceU (.ustruct fs last) (.ustruct vals li) ⟨addr, bytes⟩ =
         .ok ⟨b1.take (ceilMul (foldSize (dictL fs) 0) last.dict.align) ++ o.bytes ++
           bytes.drop (floorMul bytes.length (alignL (dictL fs ++ [last.dict]))), o.res⟩ := by
@@ -43,7 +45,7 @@ theorem ustruct_shape (fs : List Ty) (last : Ty) (vals : List Bytes) (li : Init)
   generalize hn_def : floorMul bytes.length al = n at *
   generalize hlfo_def : ceilMul (foldSize (dictL fs) 0) last.dict.align = lfo at *
   have hn : (bytes.take n).length = n := by simp only [List.length_take]; omega
-  obtain ⟨b1, hb1, hb1l, _, _, _⟩ := writeFields_spec (dictL fs) vals 0 (bytes.take n)
+  obtain ⟨b1, hb1, hb1l, _, _, hel⟩ := writeFields_spec (dictL fs) vals 0 (bytes.take n)
     hposd (headAligned_zero _) hv.1 hv.len (by rw [hn]; omega)
   rw [hn] at hb1l
   have hw : (if (dictL fs).isEmpty then Res.ok (bytes.take n) else writeFields (dictL fs) vals 0 (bytes.take n)) = .ok b1 := by
@@ -56,7 +58,7 @@ theorem ustruct_shape (fs : List Ty) (last : Ty) (vals : List Bytes) (li : Init)
     have := hok.len; simpa [Slice.len, hb1l] using this
   have hck : checkAlignMin al (minSizeL (dictL fs ++ [last.dict]) 0) ⟨addr, bytes.take n⟩ = .ok () := by
     rw [checkAlignMin_ok]; exact ⟨hal, by simp only [Slice.len]; rw [hn]; omega⟩
-  exact ⟨b1, o, hb1l, by omega, hslot, ho, hol, by simp only [hck, hw, Res.bind_ok, ho]⟩
+  exact ⟨b1, o, hb1l, by omega, hslot, ho, hol, hel, by simp only [hck, hw, Res.bind_ok, ho]⟩
 
 theorem acc_ustruct (fs : List Ty) (last : Ty) (vals : List Bytes) (li : Init)
     (hl : ∀ d ∈ dictL fs, Law d) (hs : AllSized (dictL fs)) (hlast : Law last.dict)
@@ -65,7 +67,7 @@ theorem acc_ustruct (fs : List Ty) (last : Ty) (vals : List Bytes) (li : Init)
   intro s hal hlen o ho
   obtain ⟨addr, bytes⟩ := s
   simp only [Ty.dict, ustructD, Slice.len] at hal hlen
-  obtain ⟨b1, ol, hb1l, hroom, hslot, hol, holl, hcomp⟩ := ustruct_shape fs last vals li hl hs hlast hv hrec addr bytes hal hlen
+  obtain ⟨b1, ol, hb1l, hroom, hslot, hol, holl, _, hcomp⟩ := ustruct_shape fs last vals li hl hs hlast hv hrec addr bytes hal hlen
   rw [hcomp] at ho
   simp only [Res.ok.injEq] at ho
   subst ho
